@@ -43,13 +43,14 @@ def build(profile="dev"):
 
 
 def javac_override():
-    cls = f"{SPEC}/classes/AseFloat.class"
-    src = f"{SPEC}/AseFloat.java"
-    if not os.path.exists(cls) or os.path.getmtime(cls) < os.path.getmtime(src):
-        os.makedirs(f"{SPEC}/classes", exist_ok=True)
-        r = sh(["javac", "-cp", "/opt/veriftools/tla/tla2tools.jar", "-d", f"{SPEC}/classes", src])
-        if r.returncode != 0:
-            raise ToolError("javac failed: " + r.stderr)
+    for name in ("AseFloat", "AseZlib"):
+        cls = f"{SPEC}/classes/{name}.class"
+        src = f"{SPEC}/{name}.java"
+        if not os.path.exists(cls) or os.path.getmtime(cls) < os.path.getmtime(src):
+            os.makedirs(f"{SPEC}/classes", exist_ok=True)
+            r = sh(["javac", "-cp", "/opt/veriftools/tla/tla2tools.jar", "-d", f"{SPEC}/classes", src])
+            if r.returncode != 0:
+                raise ToolError("javac failed: " + r.stderr)
 
 
 # ------------------------------------------------------------------------------------------
